@@ -1067,3 +1067,32 @@ Proof.
   apply (decode_roundtrip (sys_run s1 l) qn' cn' sn' f' s2 mq' mc' ms' n id); auto; [apply sys_run_ok; auto|].
   apply (start_ids_stable 0 s qn cn sn f s1 mq mc ms n id l qn' cn' sn' f' s2 mq' mc' ms'); auto.
 Qed.
+
+(* ---------- registries that read their rows whether or not the version row exists ----------
+   (c_needver = false: the shape of load() after the repair proposed for F20; vacuous for the
+   code as pinned, where the translator reports c_needver = true) *)
+
+Lemma covers_when_always_read c p names : c_needver c = false -> p_ver p <= 1 -> covers c p names.
+Proof.
+  intros Hn Hv. left. unfold reads_rows. rewrite Hn. cbn.
+  destruct (p_ver p =? 1) eqn:E1; auto. apply N.eqb_neq in E1.
+  replace (p_ver p =? 0) with true; [reflexivity|]. symmetry. apply N.eqb_eq. lia.
+Qed.
+
+Definition ver_le1 (s : sys) : Prop := p_ver (s_q s) <= 1 /\ p_ver (s_c s) <= 1 /\ p_ver (s_s s) <= 1.
+
+Theorem always_read_histories_covered l : forall s,
+  c_needver cfg_q = false -> c_needver cfg_c = false -> c_needver cfg_s = false ->
+  ver_le1 s -> sys_covered s l.
+Proof.
+  induction l as [|a r IH]; intros s Nq Nc Ns (Vq & Vc & Vs); cbn; auto. split.
+  - split; [|split].
+    + destruct (act_q s a); cbn; auto. apply covers_when_always_read; auto.
+    + destruct (act_c s a); cbn; auto. apply covers_when_always_read; auto.
+    + destruct (act_s s a); cbn; auto. apply covers_when_always_read; auto.
+  - apply IH; auto. destruct (sys_step_proj s a) as (Eq & Ec & Es). unfold ver_le1. rewrite Eq, Ec, Es.
+    split; [|split].
+    + destruct (rstep_ver_cases cfg_q (s_q s) (act_q s a)) as [E|E]; rewrite E; lia.
+    + destruct (rstep_ver_cases cfg_c (s_c s) (act_c s a)) as [E|E]; rewrite E; lia.
+    + destruct (rstep_ver_cases cfg_s (s_s s) (act_s s a)) as [E|E]; rewrite E; lia.
+Qed.
